@@ -199,7 +199,7 @@ static void apply(int si, int op, args_t *a)
     if (!ret) vh_fail(key(opn, "returned-false"), "%s returned FALSE for an operation the ideal sequence accepts", opn);
     check_all(opn);
     if (xtemp) c_del(0, xo);
-    vh_cov(vh_mix(vh_mix((uint64_t) op * 2 + (uint64_t) r, (uint64_t) sc), (uint64_t) argc_ * 4 + (uint64_t) outcome));
+    COV(vh_mix(vh_mix((uint64_t) op * 2 + (uint64_t) r, (uint64_t) sc), (uint64_t) argc_ * 4 + (uint64_t) outcome));
     battery(s, a->nsub);
 }
 
@@ -223,7 +223,7 @@ static void do_dup(int si)
     m_set(d, s->m, s->mlen);
     if (!IS_MY_CLASS(c) || c_type(r, c) != c_type(r, s->o)) vh_fail(key("dup", "class"), "copy is not of the original's class");
     check_all("dup");
-    vh_cov(vh_mix(vh_mix(0xd0 + (uint64_t) r, (uint64_t) sc), 0));
+    COV(vh_mix(vh_mix(0xd0 + (uint64_t) r, (uint64_t) sc), 0));
     battery(d, 2);
 }
 static void do_del(int si)
@@ -374,7 +374,7 @@ static void table_case(long t)
 
 int main(int argc, char **argv)
 {
-    vh_init(argc, argv, "C01");
+    vh_init(argc, argv, CASE_STREAM);   /* the two classes draw different histories */
     while (vh_next_case()) {
         pool_reset();
         memset(&rd, 0, sizeof rd);
